@@ -460,6 +460,11 @@ func init() {
 					Threads: [][]Step{{C(L(1, 1, 1, 0, 0, 0, 0)), C(L(2, 3, 1, 0, 0, 0, 0))}, {C(L(3, 2, 2, 0, 0, 0, 0)), C(L(4, 4, 2, 0, 0, 0, 0))}}},
 				&EngSpec{Name: "short-lived-keys-four-slots", Cfg: hapi.Config{FastKeys: 4, Concurrent: 1}, Fine: true,
 					Threads: [][]Step{{C(L(1, 1, 1, 0, 0, 0, 0)), C(L(2, 3, 1, 0, 0, 0, 0))}, {C(L(3, 2, 2, 0, 0, 0, 0)), C(L(4, 4, 2, 0, 0, 0, 0))}}})
+			// two short-lived requests for ONE key of the slow key table (the slot belongs to key 2): the second
+			// request's manager is created, used and removed while the first one's removal is under way
+			specs = append(specs,
+				&EngSpec{Name: "short-lived-slow-key-twice", Cfg: hapi.Config{FastKeys: 1, Concurrent: 2}, Fine: true, Setup: []Step{C(L(9, 2, 9, 0, 10, 0, 0))},
+					Threads: [][]Step{{C(L(1, 1, 1, 0, 0, 0, 0))}, {C(L(2, 1, 2, 0, 0, 0, 0))}}, Unlock: []hapi.Cmd{U(99, 2, 9)}})
 			for _, s := range specs {
 				s.FinalFor = 14 * sec
 				s.Collect = !q
